@@ -1,6 +1,7 @@
 package o
 
 import (
+	"math"
 	"github.com/vbauerster/mpb/v8/decor"
 	"github.com/vbauerster/mpb/v8/zzverif/h"
 )
@@ -151,6 +152,15 @@ func genSched(r *Rand, p *Profile) h.SchedSpec {
 var syncFlagSets = []int{decor.DSyncWidth, decor.DSyncWidthR, decor.DSyncSpace, decor.DSyncSpaceR}
 var plainFlagSets = []int{0, decor.DindentRight, decor.DextraSpace, decor.DextraSpace | decor.DindentRight}
 
+// genPrio picks a bar priority: mostly small numbers that collide with the default ones (the bar
+// ids), sometimes the ends of the range a program may use to pin a bar ("always last": MaxInt).
+func genPrio(r *Rand, nb int) int {
+	if r.Bool(0.12) {
+		return []int{math.MaxInt64, math.MaxInt64 - 1, math.MaxInt64 - 1<<31 + 3, math.MaxInt32, -1, -7, 1 << 40}[r.Intn(7)]
+	}
+	return r.Range(0, nb+1)
+}
+
 func genDec(r *Rand, p *Profile, sync bool) h.DecSpec {
 	d := h.DecSpec{Kind: h.DecProbe, Text: r.Intn(len(h.Texts)), Vary: r.Weighted(3, 2, 2)}
 	if r.Bool(0.4) {
@@ -158,6 +168,7 @@ func genDec(r *Rand, p *Profile, sync bool) h.DecSpec {
 	}
 	if sync {
 		d.C = syncFlagSets[r.Intn(len(syncFlagSets))]
+		d.PreInit = r.Bool(0.25)
 	} else {
 		d.C = plainFlagSets[r.Intn(len(plainFlagSets))]
 	}
@@ -230,17 +241,23 @@ func GenBase(r *Rand, p *Profile) *h.Scenario {
 			b.Total = int64(r.Range(1, 60))
 		}
 		if r.Bool(p.PExplicitPrio) {
-			b.HasPrio, b.Prio = true, r.Range(0, nb+1)
+			b.HasPrio, b.Prio = true, genPrio(r, nb)
 		}
 		b.RmOnComp = r.Bool(p.PRm)
 		b.NoPop = r.Bool(p.PNoPop)
 		b.Trim = r.Bool(0.2)
+		b.FillOnComplete = r.Bool(0.2)
+		b.FillOnAbort = r.Bool(0.2)
+		if r.Bool(0.15) && !narrow {
+			b.Width = r.Range(30, wide) // BarWidth overrides the container's width for this bar
+		}
 		b.Filler = r.Weighted(4, 1, 1, 3)
 		if p.NoSpinner && b.Filler == h.FillSpinner {
 			b.Filler = h.FillBar
 		}
 		if r.Bool(p.PExt) && !narrow {
 			b.ExtRows = r.Range(1, 3)
+			b.ExtNoNL = r.Bool(0.25)
 			b.ExtRev = r.Bool(0.4)
 		}
 		rows += 1 + b.ExtRows
@@ -572,9 +589,9 @@ func genOp(r *Rand, p *Profile, sc *h.Scenario, cand []*barGen, client int, nWri
 			return h.Op{}, false
 		}
 		if r.Bool(0.5) {
-			op = h.Op{K: h.OpSetPriority, Bar: b.idx, N: int64(r.Range(0, len(sc.Bars)+1))}
+			op = h.Op{K: h.OpSetPriority, Bar: b.idx, N: int64(genPrio(r, len(sc.Bars)))}
 		} else {
-			op = h.Op{K: h.OpUpdatePriority, Bar: b.idx, N: int64(r.Range(0, len(sc.Bars)+1)), Flag: r.Bool(p.PLazy)}
+			op = h.Op{K: h.OpUpdatePriority, Bar: b.idx, N: int64(genPrio(r, len(sc.Bars))), Flag: r.Bool(p.PLazy)}
 		}
 	case 6:
 		*nWrites++
